@@ -176,9 +176,35 @@ Proof. unfold but_last. rewrite rev_app_distr. simpl. apply rev_involutive. Qed.
 Lemma last_opt_snoc {A} (l : list A) x : last_opt (l ++ [x]) = Some x.
 Proof. unfold last_opt. rewrite rev_app_distr. reflexivity. Qed.
 
+Lemma sym_single_cons2 (a c : node) l : single_sym (a :: c :: l) = None.
+Proof. unfold single_sym. destruct a as [k ? ? ?| | | | | | | | | | | | | | | | | | | | |]; try reflexivity. destruct k; reflexivity. Qed.
+
+Lemma single_sym_visited_go ml ops : single_sym (visited ml "go" ops) = single_sym ops.
+Proof.
+  unfold visited. change (String.eqb "go" "sound") with false. rewrite andb_false_r.
+  destruct (rev_cases ops) as [->|[b [x ->]]]; [reflexivity|].
+  rewrite map_app. cbn [map]. rewrite gv_update_snoc.
+  change (mem_str (lower "go") LIST_FUNCTIONS) with false.
+  assert (E : match mutg ml x with Leaf KSymbol s p _ => map (mutg ml) b ++ [mutg ml x] | _ => map (mutg ml) b ++ [mutg ml x] end
+              = map (mutg ml) b ++ [mutg ml x]) by (destruct (mutg ml x) as [k ? ? ?| | | | | | | | | | | | | | | | | | | | |]; try reflexivity; destruct k; reflexivity).
+  cbv iota. rewrite E.
+  destruct b as [|y b]; cbn [map app].
+  - unfold single_sym. destruct x as [k s p f| | | | | | | | | | | | | | | | | | | | |]; try reflexivity; try (cbn [mutg]; destruct (mutg ml _); reflexivity).
+  - destruct b; cbn [map app]; rewrite !sym_single_cons2; reflexivity.
+Qed.
+Lemma go_sym_visited ml nm ops : go_sym nm (visited ml nm ops) = go_sym nm ops.
+Proof.
+  unfold go_sym. destruct (String.eqb nm "go") eqn:E; [|reflexivity]. apply String.eqb_eq in E. subst nm. apply single_sym_visited_go.
+Qed.
+Lemma go_bare_visited ml nm paren ops : go_bare nm paren (visited ml nm ops) = go_bare nm paren ops.
+Proof.
+  unfold go_bare. destruct (String.eqb nm "go") eqn:E; [|reflexivity]. apply String.eqb_eq in E. subst nm.
+  rewrite single_sym_visited_go. reflexivity.
+Qed.
+
 (* CallFunction.generate_lingo once the operand texts are known *)
 Definition lingo_call_text (sp : bool) (name ln : string) (use_paren with_result : bool) (empty : bool)
-           (strs : list string) (last_name : option string) : string :=
+           (strs : list string) (last_name : option string) (gobare : option string) : string :=
   if empty then (if use_paren && negb sp && negb with_result && starts_with "<" ln then name ++ "()" else name)%string
   else if String.eqb name "sound" then
          match last_name with
@@ -186,14 +212,19 @@ Definition lingo_call_text (sp : bool) (name ln : string) (use_paren with_result
          | None => name
          end
        else
-         let ps := join ", " (rev strs) in
-         (if use_paren && negb sp then name ++ "(" ++ ps ++ ")" else name ++ " " ++ ps)%string.
+         match gobare with
+         | Some s => (name ++ " " ++ s)%string
+         | None =>
+           let ps := join ", " (rev strs) in
+           (if use_paren && negb sp then name ++ "(" ++ ps ++ ")" else name ++ " " ++ ps)%string
+         end.
 Definition is_nil {A} (l : list A) : bool := match l with [] => true | _ => false end.
 
 Lemma gen_lingo_call_eq sp nm p ln lp ops up it wr ind :
   gen_lingo_sp sp (Call nm p (Some (LoadList ln lp ops)) up it wr) ind
   = lingo_call_text sp nm ln up wr (is_nil ops)
-      (set_last (map (fun x => gen_lingo_sp false x ind) ops) (gv_sym_name nm ops)) (option_map name_of (last_opt ops)).
+      (set_last (map (fun x => gen_lingo_sp false x ind) ops) (gv_sym_name nm ops)) (option_map name_of (last_opt ops))
+      (go_bare nm (up && negb sp) ops).
 Proof.
   destruct ops as [|y r]; [reflexivity|].
   cbn [gen_lingo_sp]. unfold lingo_call_text. cbn [is_nil].
@@ -209,7 +240,7 @@ Lemma gen_lingo_call ml nm p ln lp ops up it wr :
   forall sp ind, gen_lingo_sp sp (Call nm p (Some (LoadList ln lp (visited ml nm ops))) up it wr) ind
                = gen_lingo_sp sp (Call nm p (Some (LoadList ln lp ops)) up it wr) ind.
 Proof.
-  intros HF sp ind. rewrite !gen_lingo_call_eq.
+  intros HF sp ind. rewrite !gen_lingo_call_eq. rewrite go_bare_visited.
   destruct (rev_cases ops) as [->|[b [x ->]]].
   - rewrite visited_nil. reflexivity.
   - apply Forall_app in HF. destruct HF as [Hb Hx]. inversion Hx as [|? ? Hx1 _]; subst.
@@ -248,8 +279,7 @@ Proof. destruct o; intros H sp ind; cbn [option_map]; [apply H | reflexivity]. Q
 Lemma PL_all ml : forall n, PL ml n.
 Proof.
   apply node_ind2; unfold PL.
-  - (* Leaf *) intros k s p f sp ind. destruct k; try reflexivity. cbn [mutg gen_lingo_sp].
-    destruct ml; cbn [andb]; [|reflexivity]. destruct (mem_str s CONST_KNOWN_SYMBOLS); reflexivity.
+  - (* Leaf *) intros k s p f sp ind. destruct k; reflexivity.
   - intros s p o H sp ind. cbn [mutg gen_lingo_sp]. rewrite H. reflexivity.
   - intros s p l r Hl Hr sp ind. cbn [mutg gen_lingo_sp]. rewrite Hl, Hr. reflexivity.
   - intros p l r m Hl Hr sp ind. cbn [mutg gen_lingo_sp]. rewrite Hl, Hr. reflexivity.
@@ -315,8 +345,12 @@ Proof.
   - apply Forall_app in HF. destruct HF as [Hb Hx]. inversion Hx as [|? ? Hx1 _]; subst.
     destruct (ml && String.eqb nm "sound") eqn:Es.
     + rewrite (visited_sound ml nm b x Es). rewrite !map_app. cbn [map]. rewrite (Forall_PJ_map ml b Hb ind fm).
-      rewrite !gv_sym_name_snoc, !last_opt_snoc. rewrite !set_last_snoc. reflexivity.
+      rewrite !gv_sym_name_snoc, !last_opt_snoc. rewrite !set_last_snoc.
+      assert (Hg : forall l, go_sym nm l = None).
+      { intros l. unfold go_sym. destruct (andb_prop _ _ Es) as [_ Es']. apply String.eqb_eq in Es'. subst nm. reflexivity. }
+      rewrite !Hg. reflexivity.
     + destruct (visited_snoc ml nm b x) as [x' [Hv [Hn Hstr]]]. rewrite Hv.
+      rewrite <- Hv, go_sym_visited, Hv.
       rewrite !map_app. cbn [map]. rewrite !set_last_snoc, !last_opt_snoc. cbn [option_map]. rewrite Hn.
       rewrite (Forall_PJ_map ml b Hb ind fm).
       specialize (Hstr (fun y => gen_js y ind fm) (fun s => ("_global." ++ s)%string) (fun s p => eq_refl) Es (Hx1 ind fm)).
@@ -333,18 +367,23 @@ Lemma opt_PJ ml o : Popt (PJ ml) o -> forall ind fm,
   = match o with Some s => gen_js s ind fm | None => ""%string end.
 Proof. destruct o; intros H ind fm; cbn [option_map]; [apply H | reflexivity]. Qed.
 
+Lemma js_receiver_mutg ml n s : js_receiver (mutg ml n) s = js_receiver n s.
+Proof. destruct n; try reflexivity; try (destruct k; reflexivity); try (cbn [mutg]; destruct (mutg ml n); reflexivity). Qed.
+Lemma wrap_paren_mutg ml n s : wrap_paren (mutg ml n) s = wrap_paren n s.
+Proof. destruct n; try reflexivity; try (destruct k; reflexivity); try (cbn [mutg]; destruct (mutg ml n); reflexivity). Qed.
+
 Lemma PJ_all ml : forall n, PJ ml n.
 Proof.
   apply node_ind2; unfold PJ.
   - (* Leaf *) intros k s p f ind fm. destruct k; reflexivity.
   - intros s p o H ind fm. cbn [mutg gen_js]. rewrite H. reflexivity.
-  - intros s p l r Hl Hr ind fm. cbn [mutg gen_js]. rewrite Hl, Hr. reflexivity.
+  - intros s p l r Hl Hr ind fm. cbn [mutg gen_js]. rewrite Hl, Hr, js_receiver_mutg. reflexivity.
   - intros p l r m Hl Hr ind fm. cbn [mutg gen_js]. rewrite Hl, Hr. reflexivity.
   - intros s p a e o Ha He Ho ind fm. cbn [mutg gen_js]. rewrite Ha, Ho. destruct e; cbn [option_map]; [rewrite (He 0%nat fm)|]; reflexivity.
   - (* UStrOp *) intros s p t o Ho ind fm. cbn [mutg gen_js]. rewrite name_is_mutg, Ho.
     destruct t; [reflexivity|]. destruct (name_is o "menus"); [|reflexivity].
     destruct o; try reflexivity; try (cbn [mutg]; destruct (mutg ml o); reflexivity).
-    destruct k; reflexivity.
+    all: try (destruct k; reflexivity).
   - intros p o s Ho ind fm. cbn [mutg gen_js]. rewrite Ho. reflexivity.
   - reflexivity.
   - intros p m i Hm Hi ind fm. cbn [mutg gen_js]. rewrite Hm, Hi. reflexivity.
@@ -366,16 +405,16 @@ Proof.
     cbn [Popts Pops] in Hops. cbn [mutg]. apply (gen_js_call ml s p name pos ops a b c Hops).
   - intros s p o q Ho Hq ind fm. cbn [mutg gen_js]. rewrite Ho, Hq. reflexivity.
   - (* Repeat *) intros p e c body ty st en v sg Hc Hb Hst Hen ind fm. cbn [mutg gen_js].
-    rewrite Hc. rewrite (Forall_PJ_map ml body Hb (S ind) fm).
+    rewrite Hc, wrap_paren_mutg. rewrite (Forall_PJ_map ml body Hb (S ind) fm).
     destruct (String.eqb ty "while") eqn:Ew; [reflexivity|].
     rewrite (opt_PJ ml st Hst 0%nat fm). reflexivity.
-  - intros p c a b Hc Ha Hb ind fm. cbn [mutg gen_js]. rewrite Hc.
+  - intros p c a b Hc Ha Hb ind fm. cbn [mutg gen_js]. rewrite Hc, wrap_paren_mutg.
     rewrite (Forall_PJ_map ml a Ha (S ind) fm), (Forall_PJ_map ml b Hb (S ind) fm).
     destruct b; reflexivity.
   - reflexivity.
   - reflexivity.
   - reflexivity.
-  - intros p o body Ho Hb ind fm. cbn [mutg gen_js]. rewrite Ho. rewrite (Forall_PJ_map ml body Hb (S ind) fm). reflexivity.
+  - intros p o body Ho Hb ind fm. cbn [mutg gen_js]. rewrite Ho, wrap_paren_mutg. rewrite (Forall_PJ_map ml body Hb (S ind) fm). reflexivity.
 Qed.
 
 (* ---- script level ---- *)
